@@ -13,6 +13,9 @@ import KikiVerif.Model.Tokenize
 import KikiVerif.Model.Emit
 import KikiVerif.Properties.C08
 import KikiVerif.Properties.C09
+import KikiVerif.Properties.C10
+import KikiVerif.Proofs.NoPanic
+import KikiVerif.Proofs.Encode
 
 namespace KikiVerif.C07
 open KikiVerif KikiVerif.Tokenize KikiVerif.Text
@@ -54,6 +57,23 @@ theorem C07_cst_to_ast_total (toks : List Token) (fuel : Nat) (t : FrontParse.CT
   obtain ⟨ast, h1, _⟩ := C09.C09_flatten toks fuel t h
   exact ⟨ast, h1⟩
 
+/-- validation has no panicking path -/
+theorem C07_validate_no_panic (f : Ast.File) (s : String) : Validate.validateAst f ≠ .panic s :=
+  C10.C10_no_panic f s
+
+/-- **the generator stages never panic, every validated file**: once the grammar is coded, neither
+`validated_ast_to_machine` (FIRST-map `unwrap`s, `index_map[i]`) nor `machine_to_table` (`rules[i]`,
+`get_symbol_ident`, `get_shift_dest(..).unwrap()`, the "Impossible: goto conflict", table index range checks)
+can panic: the first returns a machine or runs out of the model's fuel, the second returns a table or a conflict -/
+theorem C07_generator_no_panic (vf : VFile.File) (enc : Encode.Enc) (he : Encode.encode vf = some enc) (fuel : Nat) :
+    Machine.machineOf enc.ctx fuel ≠ some none ∧
+    ∀ m, Machine.machineOf enc.ctx fuel = some (some m) → ∀ site, Table.machineToTable enc.ctx m ≠ .panic site := by
+  have ok := Encode.encode_ok he
+  refine ⟨NoPanic.machineOf_no_panic ok fuel, ?_⟩
+  intro m hm site
+  obtain ⟨fm, _, mok⟩ := Machine.machineOf_ok ok.terms hm
+  exact NoPanic.machineToTable_no_panic ok mok site
+
 end KikiVerif.C07
 
 #print axioms KikiVerif.C07.bracketScan_no_panic
@@ -61,3 +81,5 @@ end KikiVerif.C07
 #print axioms KikiVerif.C07.C07_tokenize_total
 #print axioms KikiVerif.C07.C07_parse_no_panic
 #print axioms KikiVerif.C07.C07_cst_to_ast_total
+#print axioms KikiVerif.C07.C07_validate_no_panic
+#print axioms KikiVerif.C07.C07_generator_no_panic
